@@ -784,6 +784,10 @@ class Element(object):
                 self._parent = old_parent
                 self._traversal_parent = old_traversal_parent
                 raise
+            if old_parent is not None and old_parent is not parent and \
+                    any(c is self for c in old_parent.children.list):
+                # an element has a single parent: attaching it elsewhere takes it away from the previous one
+                old_parent.children.remove(self)
 
     parent = property(_get_parent, _set_parent,
                       doc="The parent :class:`Element <hl7apy.core.Element>` of this one")
